@@ -21,6 +21,9 @@ CLAIMS = {
  "C07": ("C07_slice/C07_index: the slice.indices+range+zip model and the negative-index model equal the RFC normalize/bounds/iterate procedure for all lengths and all (start,end,step) over unbounded integers; locations non-negative and in range; step 0 and non-arrays select nothing. Tie B incl. the CPython slice primitive itself.", "§7 C07"),
  "C08": ("C08_loc: every node any query yields on a well-formed value satisfies getAt root location = value (any query, any registry, streams cut short by errors included); C08_canonical/C08_path_normal: canonical_string (json.dumps + two str.replace) and path() equal the RFC normalized name/path for every string over every Unicode scalar value; C08_unique: normalized paths determine the location. Object identity and the re-query clause are explored on the real code (is / find(path())), the latter not yet a theorem.", "§7 C08"),
  "C10": ("C10_args: what a function body receives (evaluate + _unpack_node_lists) is exactly the RFC conversion of the arguments to the declared parameter types, for any registry and any well-typed argument list; length/count/value specs; result use by declared type. Tie B with recording probe functions.", "§7 C10"),
+ "C14": ("C14_history: after ANY finite history of API operations that registers nothing on a query's own environment, applying the query gives the outcome it gave before (induction over operation lists on the World model); apply/find are pure (world unchanged); outcome is a function of (AST, environment configuration, value); frame theorems for register/subclass; recompilation gives identical behaviour. What makes this about the code: the regenerated effect table (no store/mutation on any object that outlives a call: Tables.writes_benign) and the hist correspondence op replaying random histories on the real objects; non-modification of the document is observed (deep snapshot), not proved.", "§7 C14"),
+ "C15": ("C15_*: find = list(finditer), find_one = head (even when a later element would raise), environment and module-level paths = compile followed by the compiled query's methods, invalid queries raise the same class eagerly from every entry point — equations between the model's definitions of the 11 public callables; that the real callables are wired this way is explored by pushing every (query, value) through all of them.", "§7 C15"),
+ "C16": ("C16 (interleave_independent): for any number of result-iterator cursors and ANY schedule of next() calls, what iterator i sees is the prefix of its solitary run (induction on the schedule), abandoned iterators included; premise 'nothing shared is written' is the regenerated effect table. Real code: every interleaving of k<=3 live iterators up to the combined result length (enumerated or sampled). Threads are a stress test under a minimal switch interval, not proved (GIL scheduling is outside any model).", "§7 C16"),
  "C18": ("C18_boundary/complete/raise/steps for the deterministic traversal on finite trees: raises JSONPathRecursionError iff container nesting exceeds the limit, otherwise visits exactly the input node and its container descendants in pre-order, work bounded by document size. Partial: cyclic data, nondeterministic mode and the interpreter stack are explored on the real code, not proved.", "§7 C18"),
  "C19": ("C19_linecol: Token.position (count/rfind over the query) is the line/column of the offset for every text and offset; C19_offset: every JSONPathError compile() raises carries a token whose offset lies in [0, len] (lexer invariant + a Hoare logic over the token stream and the 14 parser functions); C19_tokens. Tie B: printed line/column vs an independent scan on multi-line rejected queries.", "§7 C19"),
 }
